@@ -21,8 +21,8 @@ EXTENDS Naturals, Integers, Sequences, FiniteSets, TLC
 \* ---- the manager as a state record S = [store, version, clog, tx] and one operator per call ----
 Tx0(keys) == [st |-> "none", snap |-> 0, rs |-> {}, ws |-> <<>>, ext |-> <<>>, nops |-> 0,
               snapStore |-> [k \in keys |-> 0]]
-InitS(keys, ntx) == [store |-> [k \in keys |-> 0], version |-> 0, clog |-> <<>>,
-                     tx |-> [t \in 1..ntx |-> Tx0(keys)]]
+InitS(keys, ntx, level) == [store |-> [k \in keys |-> 0], version |-> 0, clog |-> <<>>,
+                            tx |-> [t \in 1..ntx |-> Tx0(keys)], level |-> level]
 PutF(f, k, v) == [x \in DOMAIN f \cup {k} |-> IF x = k THEN v ELSE f[x]]
 
 DoBegin(S, t) == [S EXCEPT !.tx[t].st = "active", !.tx[t].snap = S.version, !.tx[t].snapStore = S.store]
@@ -58,13 +58,15 @@ CONSTANTS Dev,
           NTx,       \* transactions 1..NTx
           TKeys,     \* set of keys
           MaxOpsTx,  \* reads+writes per transaction
-          Level      \* "ser" | "si" | "rc": isolation level of every transaction of the run
+          Levels     \* subset of {"ser", "si", "rc"}: the isolation level of all transactions of a run is
+                     \* chosen from it in the initial state
 
 VARIABLES S,         \* manager + store + transactions
           ev         \* ghost: events <<kind, t, key, value>> in the order of their atomic points
 vars == <<S, ev>>
 
-Init == S = InitS(TKeys, NTx) /\ ev = <<>>
+Init == (\E lv \in Levels : S = InitS(TKeys, NTx, lv)) /\ ev = <<>>
+Level == S.level
 
 Begin(t) == S.tx[t].st = "none" /\ S' = DoBegin(S, t) /\ ev' = Append(ev, <<"b", t, 0, 0>>)
 Read(t, k) ==
